@@ -154,7 +154,25 @@ func c16Workload(g *rand.Rand, port int, dur time.Duration) int {
 			{"LPOS", "pl", "w"}, {"HGETALL", "ph"}, {"HGET", "ph", "f1"}, {"HVALS", "ph"}, {"HMGET", "ph", "f1", "n", "x"}, {"HKEYS", "ph"}, {"HRANDFIELD", "ph", "2"}, {"HSTRLEN", "ph", "f1"}, {"HSCAN", "ph", "0"}, {"SSCAN", "pz", "0"}, {"SRANDMEMBER", "pz", "2"}, {"SMISMEMBER", "pz", "1", "2"}, {"LINDEX", "pl", "-1"}, {"MGET", "ps", "pc", "pb"}, {"SMEMBERS", "pz"}, {"SISMEMBER", "pz", "3"}, {"SINTER", "pz", "pz"}, {"SORT", "pz"}, {"SORT", "pl", "ALPHA"},
 			{"DUMP", "pb"}, {"TTL", "ps"}, {"TYPE", "pl"}, {"BITOP", "AND", "pb3", "pb", "pb2"}, {"COPY", "ph", "ph2", "REPLACE"}, {"GET", "pc"}}[r.Intn(37)]}
 	}
-	fns := []func(c *Conn, r *rand.Rand) [][]string{data, data, data, intro, intro, sel, tx, tx, blocker, blocker, feeder, flusher, selmany, xwatch, sel, blocker2, blocker2, pairW, pairR, pairR, pairW}
+	// the same command classes at the same time in DIFFERENT databases: the database lock does not order these
+	// connections, so anything they share (package-level helpers, generators, caches, the client registry)
+	// needs its own synchronisation
+	mirror := func(db string) func(c *Conn, r *rand.Rand) [][]string {
+		return func(c *Conn, r *rand.Rand) [][]string {
+			extra := [][]string{{"SADD", "ks", "a", "b", "c", "d", "e"}, {"HSET", "kh", "f1", "1", "f2", "2", "f3", "3"}, {"SRANDMEMBER", "ks", "3"}, {"SRANDMEMBER", "ks", "-20"}, {"SRANDMEMBER", "ks"},
+				{"SPOP", "ks"}, {"SPOP", "ks", "2"}, {"HRANDFIELD", "kh", "2"}, {"HRANDFIELD", "kh", "-20", "WITHVALUES"}, {"HRANDFIELD", "kh"}, {"RANDOMKEY"}, {"SCAN", "0", "COUNT", "3"},
+				{"SSCAN", "ks", "0"}, {"HSCAN", "kh", "0"}, {"SORT", "ks", "ALPHA"}, {"LCS", "ka", "kb"}, {"INCRBYFLOAT", "kf", "0.5"}, {"HINCRBYFLOAT", "kh", "n", "0.5"}, {"OBJECT", "ENCODING", "ka"},
+				{"EXPIRE", "ka", "100"}, {"SET", "kt", "v", "PX", "3"}, {"GET", "kt"}, {"KEYS", "k[a-z]*"}, {"BITFIELD", "kb", "INCRBY", "u8", "0", "1"}, {"DUMP", "ka"}}
+			var a []string
+			if r.Intn(2) == 0 {
+				a = data(c, r)[0]
+			} else {
+				a = extra[r.Intn(len(extra))]
+			}
+			return [][]string{{"SELECT", db}, a}
+		}
+	}
+	fns := []func(c *Conn, r *rand.Rand) [][]string{mirror("5"), mirror("6"), mirror("7"), data, data, data, intro, intro, sel, tx, tx, blocker, blocker, feeder, flusher, selmany, xwatch, sel, blocker2, blocker2, pairW, pairR, pairR, pairW}
 	for i, f := range fns {
 		wg.Add(1)
 		go worker(i, f, i%3 == 0)
@@ -309,7 +327,7 @@ func runC16(cfg runCfg, res *Result) error {
 		sites = append(sites, s)
 	}
 	sort.Strings(sites)
-	res.Samples = append(res.Samples, fmt.Sprintf("21 concurrent connections for %v: data commands x introspection x SELECT (16 databases)/FLUSH x MULTI/EXEC (also with keys watched in another database) x blocking commands (in four databases) x writer/reader pairs on one key per type x reconnects, saver pass every 7 ms, a second emulator started and closed", dur))
+	res.Samples = append(res.Samples, fmt.Sprintf("24 concurrent connections for %v: the command mix at the same time in three further databases x data commands x introspection x SELECT (16 databases)/FLUSH x MULTI/EXEC (also with keys watched in another database) x blocking commands (in four databases) x writer/reader pairs on one key per type x reconnects, saver pass every 7 ms, a second emulator started and closed", dur))
 	for _, s := range sites {
 		m := &Mismatch{Index: -1, Op: "data race", Why: "the race detector reports unsynchronised accesses at " + s}
 		known := false
